@@ -17,7 +17,7 @@ def signature(ev):
         if sc["thr"] != 0 and any(a[3] < sc["thr"] for a in ev["attr"]):
             return "C07|sound|below-threshold|thr=%s" % ("neg" if sc["thr"] < 0 else "pos")
         qs = [a[3] for a in ev["attr"]]
-        if any(qs[i] < qs[i + 1] for i in range(len(qs) - 1)):
+        if any(qs[i] < qs[i + 1] for i in range(len(qs) - 1)) or any(c < 0 for c in ev["cmp"]):
             return "C07|order"
     if sc["fuzzy"] and sc["thr"] == 0 and ev["elgsub"] and not ev["main"]:
         return "C07|complete"
@@ -63,6 +63,17 @@ def run(ctx):
                                   nlp=rnd.random() < 0.3, fuzzy=True, thr=0, ponly=False, pboost=False, allplat=False, plats=plats,
                                   nocross=nocross, boost=False, query="raw", raw=w[:i] + w[i + 1:], corpus="uniq",
                                   prime=rnd.choice(["nocross", "nocross", "plats", "allplat", "limitbig", "none"])))
+    # the fallback with a pipeline boost in force: order and reported scores must still agree
+    for entry in ("universal", "cached", "monitored"):     # (the deprecated SearchWithFuzzy merges both answers by design)
+        for nlp in (False, True):
+            for raw in ("frobnicte", "frobnicat widgt", "wdgt nmbr"):
+                extra.append(dict(entry=entry, limit=50, nlp=nlp, fuzzy=True, thr=0, ponly=False, pboost=True, allplat=True, plats=[],
+                                  nocross=False, boost=False, query="raw", raw=raw, corpus="mix"))
+    for raw in ("blrptak", "cemvdiz", "dwyfnsk", "limv", "limvar", "robz", "obzuk", "glimvrn"):
+        for entry in ("universal", "cached"):
+            for nlp in (False, True):
+                extra.append(dict(entry=entry, limit=50, nlp=nlp, fuzzy=True, thr=0, ponly=False, pboost=True, allplat=True, plats=[],
+                                  nocross=False, boost=False, query="raw", raw=raw, corpus="uniq"))
     tr, info, ok, rej = engine.run_cases(ctx, scen + extra, ["C07"])
     for x in rej:
         ev = json.loads(x["trace"][x["at"] - 1])
